@@ -101,6 +101,10 @@ func (m *c15Model) copyOpt(src *dhcpv4.DHCPv4, code uint8) {
 
 func c15Apply(m *c15Model, md c15Mod, src *dhcpv4.DHCPv4) dhcpv4.Modifier {
 	ip := net.IP(append([]byte{}, md.IP...))
+	if md.Kind >= 1 && md.Kind <= 4 && md.U32%5 == 0 {
+		// the unspecified address spelled nil (one time in five): a caller clearing a field a default had set
+		ip = nil
+	}
 	ip4 := ip4of(ip)
 	switch md.Kind {
 	case 0:
